@@ -273,14 +273,14 @@ impl private::StoreCallbacks<TextResource> for AnnotationStore {
     fn preremove(&mut self, handle: TextResourceHandle) -> Result<(), StamError> {
         if let Some(annotations) = self.resource_annotation_metamap.data.get(handle.as_usize()) {
             for a_handle in annotations.clone() {
-                <AnnotationStore as StoreFor<Annotation>>::remove(self, a_handle)?;
+                self.remove_annotation_if_present(a_handle)?;
             }
         }
         if let Some(map) = self.textrelationmap.data.get(handle.as_usize()) {
             let mut annotations: BTreeSet<AnnotationHandle> = BTreeSet::new();
             annotations.extend(map.data.iter().flatten());
             for a_handle in annotations {
-                <AnnotationStore as StoreFor<Annotation>>::remove(self, a_handle)?;
+                self.remove_annotation_if_present(a_handle)?;
             }
         }
         self.resource_annotation_metamap.remove_all(handle);
@@ -490,7 +490,7 @@ impl private::StoreCallbacks<Annotation> for AnnotationStore {
         if let Some(handles) = self.annotation_annotation_map.get(handle) {
             //annotations that point at us (we clone to lose the reference and not break exclusive mutable borrow rules)
             for a_handle in handles.clone() {
-                <AnnotationStore as StoreFor<Annotation>>::remove(self, a_handle)?;
+                self.remove_annotation_if_present(a_handle)?;
             }
         }
         self.annotation_annotation_map.remove_all(handle);
@@ -615,12 +615,12 @@ impl private::StoreCallbacks<AnnotationDataSet> for AnnotationStore {
             annotations.extend(map.data.iter().flatten());
         }
         for a_handle in annotations {
-            <AnnotationStore as StoreFor<Annotation>>::remove(self, a_handle)?;
+            self.remove_annotation_if_present(a_handle)?;
         }
         if let Some(annotations) = self.dataset_annotation_metamap.data.get(handle.as_usize()) {
             //remove annotations that point at us (we clone to lose the reference and not break exclusive mutable borrow rules)
             for a_handle in annotations.clone() {
-                <AnnotationStore as StoreFor<Annotation>>::remove(self, a_handle)?;
+                self.remove_annotation_if_present(a_handle)?;
             }
         }
         self.dataset_annotation_metamap.remove_all(handle);
@@ -1736,6 +1736,19 @@ impl AnnotationStore {
         Ok(results)
     }
 
+    /// Removes an annotation as part of a cascade. A cascade works through a snapshot of the annotations that
+    /// depend on the removed item; one of them may already have been removed by the cascade of another
+    /// (an annotation can depend on the same item via multiple paths), which is not an error.
+    pub(crate) fn remove_annotation_if_present(
+        &mut self,
+        handle: AnnotationHandle,
+    ) -> Result<(), StamError> {
+        if <AnnotationStore as StoreFor<Annotation>>::has(self, handle) {
+            <AnnotationStore as StoreFor<Annotation>>::remove(self, handle)?;
+        }
+        Ok(())
+    }
+
     /// Low-level method to retrieve  [`TextSelection`] handles given a specific selector.
     pub(crate) fn textselections_by_selector<'store>(
         &'store self,
@@ -2056,7 +2069,7 @@ impl AnnotationStore {
                     for a_handle in annotations.clone() {
                         delete.push((set_handle, data_handle, a_handle));
                         if strict {
-                            <AnnotationStore as StoreFor<Annotation>>::remove(self, a_handle)?;
+                            self.remove_annotation_if_present(a_handle)?;
                         } else {
                             let annotation = self.get_mut(a_handle)?;
                             let prelen = annotation.raw_data().len();
@@ -2073,7 +2086,7 @@ impl AnnotationStore {
                 if let Some(annotations) = self.data_annotation_metamap.get(set_handle, data_handle)
                 {
                     for a_handle in annotations.clone() {
-                        <AnnotationStore as StoreFor<Annotation>>::remove(self, a_handle)?;
+                        self.remove_annotation_if_present(a_handle)?;
                     }
                 }
 
@@ -2115,7 +2128,7 @@ impl AnnotationStore {
 
                 if let Some(annotations) = self.key_annotation_metamap.get(set_handle, key_handle) {
                     for a_handle in annotations.clone() {
-                        <AnnotationStore as StoreFor<Annotation>>::remove(self, a_handle)?;
+                        self.remove_annotation_if_present(a_handle)?;
                     }
                 }
 
